@@ -38,7 +38,10 @@ RULE = ('A: strings of 0-8 tokens over the alphabet {a b space \' " \\ newline t
         'element, record field, ++ '
         'operand, comparison constant, if-then-else branch, injected function argument, '
         'injected predicate argument, @DefineFlag default read by FlagValue, user flag '
-        'read by FlagValue; every string is tried at every position on all 8 engines, '
+        'read by FlagValue, argument of a built-in function (Join element / separator, '
+        'Size and Element of a list holding it, Upper, Like pattern, Greatest, nested '
+        'Join(Split(s, ","), "+") - templates of both the {0} and the %s style; SQLite '
+        'value asserted for all but Like); every string is tried at every position on all 8 engines, '
         'the literal form is drawn per position.  B: 1-5 flags named '
         '[a-z]{1,4} whose default and user values reference each other (DAG, arbitrary, '
         'ring, undefined name); in one case of three the values are SQL-safe text, in two '
@@ -104,13 +107,20 @@ ALPHABET = ['a', 'b', ' ', "'", '"', '\\', '\n', '\t', '#', '/', '*', '-', ';', 
             'é', '漢', '\U0001f600']
 FRAGMENTS = ['--', '/*', '*/', '%s', '{0}', '{}', "''", "\\'", '\\\\', '";', "') --",
              ':-', ' in ', 'distinct', 'combine', 'if a then b else c', 'null',
-             '%(x)s', '{x}', '%%', '\\n', "' || '", '" + "', '$$', "E'", '\\', "'"]
+             '%(x)s', '{x}', '%%', '\\n', "' || '", '" + "', '$$', "E'", '\\', "'",
+             '%son', '%d', '{1}']
 CONTROL = 'abc'
 MAX_BUCKETED_FAILURES = 24      # per shard; each costs ~200 compilations
 DECOY = 'zzzzzzzzz'
 
 POSITIONS = ['fact', 'fact_of_two', 'list_elem', 'record_field', 'concat', 'compare_const',
-             'if_branch', 'fun_arg', 'rel_arg', 'flag_default', 'user_flag']
+             'if_branch', 'fun_arg', 'rel_arg', 'flag_default', 'user_flag',
+             # argument (possibly nested) of a BUILT-IN function: templates written with
+             # {0}/{1} (Join, Element, Size, Like on most engines) and with %s (Upper,
+             # Greatest, Length) must not reinterpret an already substituted argument
+             'bi_join_elem', 'bi_join_sep', 'bi_size', 'bi_element', 'bi_upper', 'bi_like',
+             'bi_greatest', 'bi_nested']
+NOVALUE = object()      # positions whose SQLite value has no trivial model: shape only
 FORMS = ['dq', 'sq', 'tq']
 
 
@@ -171,6 +181,22 @@ def program(position, lit, engine):
         return e + '@DefineFlag("f", %s);\nT(FlagValue("f"));\n' % lit
     if position == 'user_flag':
         return e + '@DefineFlag("f", "dflt");\nT(FlagValue("f"));\n'
+    if position == 'bi_join_elem':
+        return e + 'T(Join([%s, "k"], "-"));\n' % lit
+    if position == 'bi_join_sep':
+        return e + 'T(Join(["a", "b"], %s));\n' % lit
+    if position == 'bi_size':
+        return e + 'T(Size([%s]));\n' % lit
+    if position == 'bi_element':
+        return e + 'T(Element([%s], 0));\n' % lit
+    if position == 'bi_upper':
+        return e + 'T(Upper(%s));\n' % lit
+    if position == 'bi_like':
+        return e + 'T(Like("%s", %s));\n' % (DECOY, lit)
+    if position == 'bi_greatest':
+        return e + 'T(Greatest(%s, "a"));\n' % lit
+    if position == 'bi_nested':
+        return e + 'T(Join(Split(%s, ","), "+"));\n' % lit
     raise ValueError(position)
 
 
@@ -183,6 +209,20 @@ def expected_sqlite(position, s):
         return '<' + s + '>'
     if position == 'fun_arg':
         return s + '>'
+    if position == 'bi_join_elem':
+        return s + '-k'
+    if position == 'bi_join_sep':
+        return 'a' + s + 'b'
+    if position == 'bi_size':
+        return 1
+    if position == 'bi_upper':          # SQLite's UPPER folds ASCII letters only
+        return ''.join(chr(ord(c) - 32) if 'a' <= c <= 'z' else c for c in s)
+    if position == 'bi_greatest':       # BINARY collation = code point order
+        return max(s, 'a')
+    if position == 'bi_nested':         # Split and Join are inverse up to the separator
+        return s.replace(',', '+')
+    if position == 'bi_like':
+        return NOVALUE
     return s
 
 
@@ -264,6 +304,8 @@ def check_literal(s, position, form, engine):
             return ('sqlite_error', 'SQLite fails on the emitted SQL: %s: %s\n--- SQL\n%s\n%s'
                     % (type(e).__name__, e, main, hdr))
         exp = expected_sqlite(position, s)
+        if exp is NOVALUE:
+            return None
         try:
             got = [decode_sqlite(position, r[0]) for r in rows]
         except Exception as e:
